@@ -1,12 +1,18 @@
 (* C07 - written NodeSets are well-formed, schema-valid and self-contained.
-   C07_partial: proved are (1) the markup theorem - the writer's spelling of ANY element tree with well-formed names parses
-   back to that tree whatever characters its text and attribute values contain, when they go through escape / escape_attr;
-   (2) the self-containedness of the header (first Uri = ModelUri = the namespace that was written).  That the generator's
-   text IS such a spelling holds only where the code escapes: the positions where it does not (quotes in NodeId/BrowseName/
-   SymbolicName, raw DataType/ParentNodeId/MethodDeclarationId, URIs) are recorded findings.  Schema validity is decided by
-   the oracle (lxml.XMLSchema with the bundled UANodeSet.xsd on every written document), not by a theorem. *)
+   C07_written_text_wellformed (text level): the text create_nodeset2_file writes - modelled character for character in
+   M_WriteText.v (header, Models/RequiredModel, node elements with their irregular blanks, Reference elements, Value elements) and
+   compared with the implementation's bytes on every generated case - is, whenever text_clean holds, the layout-aware spelling of
+   an explicit element tree; therefore an XML reader accepts it and returns exactly that tree, WHATEVER the display names,
+   descriptions, identifiers, reference targets and values contain (XmlL.xparse_spell_l: extra blanks, '/>' and the XML
+   declaration included).  text_clean is a decision procedure; what it excludes are the positions where the code splices
+   strings without (sufficient) escaping - the recorded findings quote-in-attribute, raw-nodeid-attribute, uri-unescaped - values
+   outside the clean domain of C08, and carriage returns.
+   C07_names_written_namespace_first: under the regularity conditions the first Uri and the ModelUri are the namespace asked for.
+   C07_partial: schema validity is decided by the oracle (lxml.XMLSchema with the bundled UANodeSet.xsd on every written
+   document), not by a theorem; the order of node elements and of Reference elements inside a node (pandas joins) is not modelled:
+   texts are compared up to that order. *)
 From Coq Require Import String Ascii List Bool Arith NArith ZArith.
-Require Import PyStr PyInt Sexp Xml M_C09 M_C08 Ns Table M_Parse M_Write T_Write T_Write2.
+Require Import PyStr PyInt Sexp Xml XmlL M_C09 M_C08 M_C08d Ns Table M_Parse M_Write M_WriteText T_Write T_Write2 T_WriteText.
 Import ListNotations.
 Open Scope char_scope.
 
@@ -29,9 +35,21 @@ Theorem C07_names_written_namespace_first : forall p w d k refs,
   exists rest attrs req, d_uris d = Some (wp_uri w :: rest) /\ d_models d = Some [{| me_attrs := (lit "ModelUri", wp_uri w) :: attrs; me_required := req |}].
 Proof. exact T_Write2.C06_first_uri. Qed.
 
+Theorem C07_written_text_wellformed : forall lm p w, text_clean lm p w = true ->
+  exists d vts s, write_doc p w = Ok d /\ write_text lm p w = Ok s /\ xparse s = Some (erase (doc_ltree lm d vts)).
+Proof. exact write_text_wellformed. Qed.
+Theorem C07_text_is_spelling : forall lm d vts, doc_clean lm d = true ->
+  doc_text lm d (map (omap (spell_treeq noq)) vts) = spell_l PROLOG (doc_ltree lm d vts).
+Proof. exact doc_text_spelled. Qed.
+Theorem C07_layout_reader : forall pro t, prolog_ok pro = true -> ltree_ok t = true -> has CR (spell_l pro t) = false -> xparse (spell_l pro t) = Some (erase t).
+Proof. exact xparse_spell_l. Qed.
+
 Print Assumptions C07_markup_never_broken.
 Print Assumptions C07_text_escape.
 Print Assumptions C07_attribute_escape.
 Print Assumptions C07_escaped_text_has_no_markup.
 Print Assumptions C07_self_contained_header.
 Print Assumptions C07_names_written_namespace_first.
+Print Assumptions C07_written_text_wellformed.
+Print Assumptions C07_text_is_spelling.
+Print Assumptions C07_layout_reader.
